@@ -1,0 +1,124 @@
+//go:build verif
+
+// Contracts for govc (/verif): C24 retiring a local proposal never loses a pending transaction.
+// Comment-only file. kernel/queue.go (requeueTransactions), kernel/cosi.go (abandon / retry / round reset / expiry / deferral paths).
+//
+// ASSUMPTION of the whole property: the CoSi maps (Chain.CosiAggregators, Chain.CosiVerifiers) and the proposal pipeline are touched by
+// one goroutine (QueuePollSnapshots processes all CoSi actions and calls expireCosiAggregators), and the store's transaction records do
+// not change while one of these functions runs (sequential reading; no schedule is explored).
+
+package kernel
+
+// ───────────── the store, as far as C24 observes it (ASSUMED interface contracts) ─────────────
+// The cache queue is ghost state of the store object:  ghostbytes(bytes_cachequeue, ptrof(store))[kvval(h)] != 0  <=>  the transaction with
+// payload hash h has an entry in the cache queue (is eligible for proposal).  kvval(h) is the injective integer id of the 32 bytes of h.
+// ghostint(store_errors, ptrof(store)) counts the errors the store has returned: "unless the store returned an error" is
+// `StoreErrors(st) == old(StoreErrors(st))`.
+//@ spec Queued(st storage.Store, h crypto.Hash) bool = ghostbytes(bytes_cachequeue, ptrof(st))[kvval(h)] != 0
+//@ spec QueuedId(st storage.Store, k mathint) mathint = ghostbytes(bytes_cachequeue, ptrof(st))[k]
+//@ spec StoreErrors(st storage.Store) mathint = ghostint(store_errors, ptrof(st))
+// What the store answers for a hash while one retirement runs (functions of the store value and the hash: the records are not written here).
+//@ uninterp TxBody(st storage.Store, h crypto.Hash) *common.VersionedTransaction -- body in the persistent store (nil: none)
+//@ uninterp TxFinal(st storage.Store, h crypto.Hash) string -- finalization mark ("" = not finalized)
+//@ uninterp CacheBody(st storage.Store, h crypto.Hash) *common.VersionedTransaction -- body in the cache store (nil: none)
+// Eligible: still unfinalized and still has a body (persistent or cached).
+//@ spec Finalized(st storage.Store, h crypto.Hash) bool = len(TxFinal(st, h)) > 0
+//@ spec Eligible(st storage.Store, h crypto.Hash) bool = !Finalized(st, h) && (TxBody(st, h) != nil || CacheBody(st, h) != nil)
+
+// ReadTransaction / CacheGetTransaction: read-only; an answer without error is THE record of that hash, and a body stored under a hash
+// has that payload hash (both stores are keyed by the payload hash).
+//@ assume func (recv storage.Store) ReadTransaction(hash)
+//@   modifies ghost store_errors
+//@   ensures err == nil ==> result0 == TxBody(recv, hash) && result1 == TxFinal(recv, hash) && StoreErrors(recv) == old(StoreErrors(recv))
+//@   ensures err == nil && result0 != nil ==> common.TxHash(result0) == hash
+//@   ensures err != nil ==> StoreErrors(recv) > old(StoreErrors(recv))
+//@ assume func (recv storage.Store) CacheGetTransaction(hash)
+//@   modifies ghost store_errors
+//@   ensures err == nil ==> result0 == CacheBody(recv, hash) && StoreErrors(recv) == old(StoreErrors(recv))
+//@   ensures err == nil && result0 != nil ==> common.TxHash(result0) == hash
+//@   ensures err != nil ==> StoreErrors(recv) > old(StoreErrors(recv))
+// CacheQueueTransaction(tx): on success exactly the queue entry of tx's payload hash is (re)created; on error nothing changes.
+//@ assume func (recv storage.Store) CacheQueueTransaction(tx)
+//@   requires tx != nil
+//@   modifies ghost bytes_cachequeue, ghost store_errors
+//@   ensures err == nil ==> StoreErrors(recv) == old(StoreErrors(recv)) &&
+//@       (forall k mathint :: {QueuedId(recv, k)} QueuedId(recv, k) == (k == kvval(common.TxHash(tx)) ? 1 : old(QueuedId(recv, k))))
+//@   ensures err != nil ==> StoreErrors(recv) > old(StoreErrors(recv)) && (forall k mathint :: {QueuedId(recv, k)} QueuedId(recv, k) == old(QueuedId(recv, k)))
+
+// wakeCacheQueue / wakeCosiLoop: non-blocking channel sends (select with default): out of the verified subset; they only signal a loop.
+//@ assume func (node *Node) wakeCacheQueue
+//@   modifies nothing
+
+// ───────────── requeueTransactions ─────────────
+//@ spec NodeStoreOK(node *Node) bool = node != nil && !isnil(node.persistStore)
+// InList(hs, k): k is the id of one of the hashes
+//@ spec InList(hs []crypto.Hash, k mathint) bool = exists i int :: 0 <= i && i < len(hs) && kvval(hs[i]) == k
+
+//@ func (node *Node) requeueTransactions
+//@   property C24
+//@   requires NodeStoreOK(node)
+//@   modifies ghost bytes_cachequeue, ghost store_errors
+//@   -- every hash that is not finalized and has a body is queued again unless the store returned an error
+//@   ensures [requeued] StoreErrors(node.persistStore) == old(StoreErrors(node.persistStore)) ==>
+//@       (forall i int :: {hashes[i]} 0 <= i && i < len(hashes) && Eligible(node.persistStore, hashes[i]) ==> Queued(node.persistStore, hashes[i]))
+//@   -- nothing else is queued, a finalized transaction is never queued, and nothing leaves the queue
+//@   ensures [only] forall h crypto.Hash :: {Queued(node.persistStore, h)} Queued(node.persistStore, h) != old(Queued(node.persistStore, h)) ==>
+//@       !Finalized(node.persistStore, h) && (exists i int :: 0 <= i && i < len(hashes) && hashes[i] == h)
+//@   ensures [monotone] forall k mathint :: {QueuedId(node.persistStore, k)} QueuedId(node.persistStore, k) != old(QueuedId(node.persistStore, k)) ==> QueuedId(node.persistStore, k) == 1
+//@   ensures [errors-grow] StoreErrors(node.persistStore) >= old(StoreErrors(node.persistStore))
+//@   loop 0 invariant [errors-grow] StoreErrors(node.persistStore) >= old(StoreErrors(node.persistStore))
+//@   loop 0 invariant [requeued] StoreErrors(node.persistStore) == old(StoreErrors(node.persistStore)) ==>
+//@       (forall i int :: {hashes[i]} 0 <= i && i <= rangeindex && Eligible(node.persistStore, hashes[i]) ==> Queued(node.persistStore, hashes[i]))
+//@   loop 0 invariant [only] forall h crypto.Hash :: {Queued(node.persistStore, h)} Queued(node.persistStore, h) != old(Queued(node.persistStore, h)) ==>
+//@       !Finalized(node.persistStore, h) && (exists i int :: 0 <= i && i <= rangeindex && hashes[i] == h)
+//@   loop 0 invariant [monotone] forall k mathint :: {QueuedId(node.persistStore, k)} QueuedId(node.persistStore, k) != old(QueuedId(node.persistStore, k)) ==> QueuedId(node.persistStore, k) == 1
+
+// ───────────── abandonCosiSnapshot / retryCosiSnapshot ─────────────
+// The two CoSi maps exist (NewChain / resetCosiStateForNewRound make them; they are never set to nil).
+//@ spec ChainMapsOK(chain *Chain) bool = chain != nil && chain.CosiAggregators != nil && chain.CosiVerifiers != nil
+//@ spec CosiChainOK(chain *Chain) bool = ChainMapsOK(chain) && NodeStoreOK(chain.node)
+// Lookup in the verifier map as the code reads it (a missing key reads as nil)
+//@ spec VerifierAt(m map[crypto.Hash]*CosiVerifier, h crypto.Hash) *CosiVerifier = has(m, h) ? m[h] : nil
+
+// abandonCosiSnapshot(s): the aggregator entry of s.Hash and the verifier entry of s.Hash are removed, and so is every verifier entry of a
+// transaction of s that belongs to that same verifier (entries of other proposals stay); nothing is added to either map.
+//@ func (chain *Chain) abandonCosiSnapshot
+//@   property C24
+//@   requires ChainMapsOK(chain) && s != nil
+//@   modifies chain.CosiAggregators[-], chain.CosiVerifiers[-]
+//@   ensures [aggregator-removed] !has(chain.CosiAggregators, s.Hash)
+//@   ensures [aggregators-kept] forall k crypto.Hash :: {has(chain.CosiAggregators, k)} k != s.Hash ==> has(chain.CosiAggregators, k) == old(has(chain.CosiAggregators, k))
+//@   ensures [verifier-removed] !has(chain.CosiVerifiers, s.Hash)
+//@   ensures [own-entries-removed] forall i int :: {s.Transactions[i]} 0 <= i && i < len(s.Transactions) && has(chain.CosiVerifiers, s.Transactions[i]) ==>
+//@       chain.CosiVerifiers[s.Transactions[i]] != old(VerifierAt(chain.CosiVerifiers, s.Hash))
+//@   ensures [foreign-entries-kept] forall k crypto.Hash :: {has(chain.CosiVerifiers, k)} old(has(chain.CosiVerifiers, k)) && k != s.Hash &&
+//@       old(chain.CosiVerifiers[k]) != old(VerifierAt(chain.CosiVerifiers, s.Hash)) ==> has(chain.CosiVerifiers, k)
+//@   loop 0 invariant [maps] chain.CosiVerifiers == old(chain.CosiVerifiers) && chain.CosiAggregators == old(chain.CosiAggregators) && verifier == old(VerifierAt(chain.CosiVerifiers, s.Hash))
+//@   loop 0 invariant [aggregators] !has(chain.CosiAggregators, s.Hash) && (forall k crypto.Hash :: {has(chain.CosiAggregators, k)} k != s.Hash ==> has(chain.CosiAggregators, k) == old(has(chain.CosiAggregators, k)))
+//@   loop 0 invariant [verifier-removed] !has(chain.CosiVerifiers, s.Hash)
+//@   loop 0 invariant [own-entries-removed] forall i int :: {s.Transactions[i]} 0 <= i && i <= rangeindex && has(chain.CosiVerifiers, s.Transactions[i]) ==>
+//@       chain.CosiVerifiers[s.Transactions[i]] != verifier
+//@   loop 0 invariant [foreign-entries-kept] forall k crypto.Hash :: {has(chain.CosiVerifiers, k)} old(has(chain.CosiVerifiers, k)) && k != s.Hash &&
+//@       old(chain.CosiVerifiers[k]) != verifier ==> has(chain.CosiVerifiers, k)
+//@   loop 0 invariant [delete-only] forall k crypto.Hash :: {has(chain.CosiVerifiers, k)} has(chain.CosiVerifiers, k) ==> old(has(chain.CosiVerifiers, k)) && chain.CosiVerifiers[k] == old(chain.CosiVerifiers[k])
+//@   loop 0 invariant [aggs-delete-only] forall k crypto.Hash :: {has(chain.CosiAggregators, k)} has(chain.CosiAggregators, k) ==> old(has(chain.CosiAggregators, k)) && chain.CosiAggregators[k] == old(chain.CosiAggregators[k])
+//@   loop 0 invariant [lengths] len(chain.CosiVerifiers) <= old(len(chain.CosiVerifiers)) && len(chain.CosiAggregators) <= old(len(chain.CosiAggregators))
+
+// retryCosiSnapshot(s): abandon + every transaction of the abandoned snapshot that is still unfinalized and has a body is queued again.
+//@ func (chain *Chain) retryCosiSnapshot
+//@   property C24
+//@   requires CosiChainOK(chain) && s != nil
+//@   modifies chain.CosiAggregators[-], chain.CosiVerifiers[-], ghost bytes_cachequeue, ghost store_errors
+//@   ensures [requeued] StoreErrors(chain.node.persistStore) == old(StoreErrors(chain.node.persistStore)) ==>
+//@       (forall i int :: {s.Transactions[i]} 0 <= i && i < len(s.Transactions) && Eligible(chain.node.persistStore, s.Transactions[i]) ==> Queued(chain.node.persistStore, s.Transactions[i]))
+//@   ensures [only] forall h crypto.Hash :: {Queued(chain.node.persistStore, h)} Queued(chain.node.persistStore, h) != old(Queued(chain.node.persistStore, h)) ==>
+//@       !Finalized(chain.node.persistStore, h) && (exists i int :: 0 <= i && i < len(s.Transactions) && s.Transactions[i] == h)
+//@   ensures [monotone] forall k mathint :: {QueuedId(chain.node.persistStore, k)} QueuedId(chain.node.persistStore, k) != old(QueuedId(chain.node.persistStore, k)) ==> QueuedId(chain.node.persistStore, k) == 1
+//@   ensures [errors-grow] StoreErrors(chain.node.persistStore) >= old(StoreErrors(chain.node.persistStore))
+//@   ensures [aggregator-removed] !has(chain.CosiAggregators, s.Hash)
+//@   ensures [aggregators-kept] forall k crypto.Hash :: {has(chain.CosiAggregators, k)} k != s.Hash ==> has(chain.CosiAggregators, k) == old(has(chain.CosiAggregators, k))
+//@   ensures [verifier-removed] !has(chain.CosiVerifiers, s.Hash)
+//@   ensures [own-entries-removed] forall i int :: {s.Transactions[i]} 0 <= i && i < len(s.Transactions) && has(chain.CosiVerifiers, s.Transactions[i]) ==>
+//@       chain.CosiVerifiers[s.Transactions[i]] != old(VerifierAt(chain.CosiVerifiers, s.Hash))
+//@   ensures [foreign-entries-kept] forall k crypto.Hash :: {has(chain.CosiVerifiers, k)} old(has(chain.CosiVerifiers, k)) && k != s.Hash &&
+//@       old(chain.CosiVerifiers[k]) != old(VerifierAt(chain.CosiVerifiers, s.Hash)) ==> has(chain.CosiVerifiers, k)
